@@ -37,10 +37,10 @@ type value interface {
 // ---------- the cacheable types (cross-checked against a scan of the source tree) ----------
 
 type vtype struct {
-	name     string                  // "<package dir>.<receiver type>" as found by the scan
-	zero     func() value            // the object a caller passes to GetTrieNode
+	name     string                    // "<package dir>.<receiver type>" as found by the scan
+	zero     func() value              // the object a caller passes to GetTrieNode
 	fillRoot func(v value) interface{} // the struct to fill by reflection (the entity for wrappers)
-	copyDeep bool                    // CopyFrom makes its own copy (false: `*p = *cp`)
+	copyDeep bool                      // CopyFrom makes its own copy (false: `*p = *cp`)
 }
 
 func self(v value) interface{} { return v }
@@ -487,8 +487,8 @@ func run(t vtype, h hist) (res result) {
 		case "insbig":
 			// a value whose encoding exceeds util.MPTMaxAllowableNodeSize: the trie rejects it
 			cop = fmt.Sprintf("SInsertRej %d", o.Key)
-			v, _ := gen(t, vh.NewRand(o.Seed))
-			if !inflate(t, v) {
+			v := bigInstance(t)
+			if v == nil {
 				panic("cannot build an oversized " + t.name)
 			}
 			if _, err := ctx.InsertTrieNode(keyName(o.Key), v); err != nil {
@@ -675,9 +675,9 @@ func genHistOld(t vtype, r *vh.Rand, n int) hist {
 // (in-place element updates of full slices included), discard the transaction, read again
 func genAlias(t vtype, r *vh.Rand) hist {
 	h := hist{Type: t.name}
-	h.Ops = append(h.Ops, op{K: "ins", Key: 0, Seed: r.U64()%1000 + 1}, op{K: "mut", I: 0}, op{K: "get", Key: 0}) // handles 0,1
-	h.Ops = append(h.Ops, op{K: "ctxn"}, op{K: "get", Key: 0}, op{K: "mut", I: 2}, op{K: "get", Key: 0})           // 2,3
-	h.Ops = append(h.Ops, op{K: "mut", I: 3}, op{K: "dtxn"}, op{K: "get", Key: 0}, op{K: "mut", I: 4})            // 4
+	h.Ops = append(h.Ops, op{K: "ins", Key: 0, Seed: r.U64()%1000 + 1}, op{K: "mut", I: 0}, op{K: "get", Key: 0})       // handles 0,1
+	h.Ops = append(h.Ops, op{K: "ctxn"}, op{K: "get", Key: 0}, op{K: "mut", I: 2}, op{K: "get", Key: 0})                // 2,3
+	h.Ops = append(h.Ops, op{K: "mut", I: 3}, op{K: "dtxn"}, op{K: "get", Key: 0}, op{K: "mut", I: 4})                  // 4
 	h.Ops = append(h.Ops, op{K: "ctxn"}, op{K: "cblk"}, op{K: "get", Key: 0}, op{K: "mut", I: 5}, op{K: "get", Key: 0}) // 5,6
 	h.Ops = append(h.Ops, op{K: "insh", Key: 1, I: 5}, op{K: "mut", I: 5}, op{K: "get", Key: 1}, op{K: "dtxn"}, op{K: "get", Key: 1}, op{K: "get", Key: 0})
 	if inflatable[t.name] {
@@ -794,8 +794,7 @@ func main() {
 	for _, t := range vtypes {
 		// how rich are the generated instances
 		_, depth := gen(t, vh.NewRand(1))
-		probe, _ := gen(t, vh.NewRand(2))
-		inflatable[t.name] = inflate(t, probe)
+		inflatable[t.name] = bigInstance(t) != nil
 		rep.Note("%s: instances filled to depth %d; oversized (trie-rejected) instances: %v", t.name, depth, inflatable[t.name])
 		for i := 0; i < o.N(3, 20); i++ {
 			handle(genAlias(t, rnd))
